@@ -130,9 +130,10 @@ def bytesAt (msg : Bytes) (off l : Nat) : Res (Bytes × Nat) := do
 
 /-! ### name decoding (NameBuilder.unpack) -/
 
-/-- Pointer limit `ptr > 10` and the size tests `> 255` of name.go, regenerated from the source. -/
-def hopLimit : Nat := Facts.name_hopLimit
-def nameCap : Nat := Facts.name_lenLimit      -- 255 in `len(name)+1+c+1 > 255`
+/-- Pointer limit `ptr > 10` and the size test `> 255` of name.go. Tied to the source by translation:
+    `Lemmas/TranslatedCodecName.lean` proves `nameLoop` equal to the loop regenerated from name.go. -/
+def hopLimit : Nat := 10
+def nameCap : Nat := 255      -- 255 in `len(name)+1+c+1 > 255`
 
 /-- The `Loop:` of `NameBuilder.unpack`. `name` is the scratch slice `n.buf[:0]` grown by append
     (a 254-byte array: more than 254 octets would corrupt it — reported as `panic`). -/
